@@ -17,7 +17,7 @@ ASSUMPTIONS = ["models/tc209.py: SET TEMPORARY Tc loads DTR1:DTR0, ACTIVATE copi
                "the library's QueryColourValueDTR enumeration defines the query selectors (73 members)"]
 EXHAUSTIVE = {"quick": False, "thorough": True}
 REQUIRED_ANCHORS = {"all": ["set_checked", "limit_checked", "query_checked", "query_faults_checked", "rejections_checked",
-                            "order_monitored", "interleaved_pairs"]}
+                            "order_monitored", "interleaved_pairs", "abandoned_sequences"]}
 SHARD_TIMEOUT = {"quick": 600, "thorough": 3000}
 
 
@@ -201,6 +201,18 @@ def run_interleaved(desc, seed, res):
                 res.violation("C14/interleaved/limit-value", f"two sequences advanced in turns: the {name} unit's limit is {unit.tc.limits[0]}, requested {v}", wit)
             elif kind == "query" and o[1] != (None if v // 256 == 255 else v):
                 res.violation("C14/interleaved/query-value", f"two sequences advanced in turns: the {name} query returned {o[1]!r}, unit holds {v}", wit)
+    from props import pairs
+
+    def maker(kind):
+        def mk1(rr):
+            v = rr.getrandbits(16)
+            bus, t, o, d = mk_bus("short", values={2: v})
+            t.tc.actual_tc = v
+            gen = (SetDT8ColourValueTc(d, v) if kind == "set" else SetDT8TcLimit(d, rr.randrange(4), v) if kind == "limit"
+                   else QueryDT8ColourValue(d, rr.choice(list(QueryColourValueDTR))))
+            return bus, gen, lambda: None
+        return mk1
+    pairs.abandon(res, "C14", rng(seed, "C14", "abandon"), {k: maker(k) for k in ("set", "limit", "query")}, desc["n"])
 
 
 def run_query(desc, seed, res):
